@@ -1,7 +1,7 @@
 (* The 1D system matrix of Model/Gram.v on EVERY strictly increasing grid:
    x^T (G + lambda I) x = sum over the cells h_k/3 (x_k^2 + x_k x_{k+1} + x_{k+1}^2) + lambda |x|^2  > 0 for x <> 0
    (values at the two boundary nodes are 0: grids without boundary points). Symmetry and the mass-lumped form. *)
-From Coq Require Import ZArith List QArith Qcanon Bool Lia Lra Lqa.
+From Coq Require Import ZArith List QArith Qcanon Bool Lia Lqa.
 From SG Require Import Base.QcUtil Base.PolyInt Model.Gram Proofs.GramHat Proofs.GramEntries.
 Import ListNotations.
 Open Scope Qc_scope.
